@@ -233,7 +233,7 @@ pub fn build_core_many(proto: &str, key: &[u8], nonce: &[u8], msg: &str, footer:
             b.set_payload(Payload::from(msg));
             if let Some(f) = footer { b.set_footer(Footer::from(f)); }
             local_build!(@ia $ia, b, assertion);
-            (0..times).map(|_| guarded(|| b.try_encrypt(&k, &n).map_err(|e| format!("{:?}", e)))).collect()
+            (0..times).map(|i| guarded(|| if i % 2 == 1 { Clone::clone(&b).try_encrypt(&k, &n).map_err(|e| format!("{:?}", e)) } else { b.try_encrypt(&k, &n).map_err(|e| format!("{:?}", e)) })).collect()
         }};
     }
     macro_rules! many_public {
@@ -243,7 +243,7 @@ pub fn build_core_many(proto: &str, key: &[u8], nonce: &[u8], msg: &str, footer:
             b.set_payload(Payload::from(msg));
             if let Some(f) = footer { b.set_footer(Footer::from(f)); }
             local_build!(@ia $ia, b, assertion);
-            (0..times).map(|_| guarded(|| b.try_sign(&sk).map_err(|e| format!("{:?}", e)))).collect()
+            (0..times).map(|i| guarded(|| if i % 2 == 1 { Clone::clone(&b).try_sign(&sk).map_err(|e| format!("{:?}", e)) } else { b.try_sign(&sk).map_err(|e| format!("{:?}", e)) })).collect()
         }};
     }
     match proto {
@@ -257,7 +257,7 @@ pub fn build_core_many(proto: &str, key: &[u8], nonce: &[u8], msg: &str, footer:
             let mut b = Paseto::<V2, Local>::builder();
             b.set_payload(Payload::from(msg));
             if let Some(f) = footer { b.set_footer(Footer::from(f)); }
-            (0..times).map(|_| guarded(|| b.try_encrypt(&k, &n).map_err(|e| format!("{:?}", e)))).collect()
+            (0..times).map(|i| guarded(|| if i % 2 == 1 { Clone::clone(&b).try_encrypt(&k, &n).map_err(|e| format!("{:?}", e)) } else { b.try_encrypt(&k, &n).map_err(|e| format!("{:?}", e)) })).collect()
         }
         "v1.public" => many_public!(V1, PasetoAsymmetricPrivateKey::<V1, Public>::from(key), no),
         "v2.public" => { let k = Key::<64>::from(arr::<64>(key)); many_public!(V2, PasetoAsymmetricPrivateKey::<V2, Public>::from(&k), no) }
@@ -393,6 +393,10 @@ fn mutate(token: &str, ops: &[J], env: &Env) -> String {
             parts.truncate(3);
             parts.push(b64e(env.str_of(v).unwrap_or_default().as_bytes()));
         }
+        if let Some(v) = o.get("prepend_text") {
+            let s = v.as_str().unwrap_or("").to_string() + &parts.join(".");
+            parts = s.split('.').map(|s| s.to_string()).collect();
+        }
         if let Some(v) = o.get("append_text") {
             let s = parts.join(".") + v.as_str().unwrap_or("");
             parts = s.split('.').map(|s| s.to_string()).collect();
@@ -447,6 +451,16 @@ fn main() {
             }
             "bytes" => {
                 env.bytes.insert(out, hexv(&st["hex"]));
+            }
+            "bytes_xor" => {
+                // a neighbour of a byte string: one byte XOR-ed with a mask (negative index counts from the end)
+                let mut b = env.bytes_of(&st["in"]);
+                let idx = st["index"].as_i64().unwrap_or(0);
+                let i = if idx < 0 { b.len() as i64 + idx } else { idx };
+                if i >= 0 && (i as usize) < b.len() {
+                    b[i as usize] ^= st["mask"].as_u64().unwrap_or(1) as u8;
+                }
+                env.bytes.insert(out, b);
             }
             "build_core" => {
                 let key = env.bytes_of(&st["key"]);
